@@ -25,8 +25,8 @@ class C04(Prop):
                   'C04_text_is_anchored_inside_its_first_cell (for every text fragment and every scale the text element is anchored strictly inside the cell of its first character), C04_short_inputs_shown_exactly_once (from the input text through the whole recognition: for EVERY input of the stated short shapes over {blank, a, b, a double-width CJK character, -} the (cell, character) pairs of all text fragments that come out are exactly the label characters of the input at their display columns, each once; sweep inside Coq). '
                   'Longer inputs and the enclosure pass (which only moves fragments) are decided by correspondence and oracle.')
     level_note = 'partial: for inputs beyond the swept shapes the step from merged fragments to emitted text elements (grouping, endorsement, enclosure) relies on correspondence plus oracle'
-    def make(self, gen, text):
-        return Item(gen, {'main': Run(text, '', 'settings')}, {'text': text}, lambda t: self.make(gen, t))
+    def make(self, gen, text, sc='8'):
+        return Item(gen, {'main': Run(text, '' if sc == '8' else 'scale=%s' % sc, 'settings')}, {'text': text, 'scale': sc}, lambda t: self.make(gen, t, sc))
     def items(self, rng, tier):
         import itertools
         out = []
@@ -51,6 +51,11 @@ class C04(Prop):
             pieces.append(''.join(rng.choice(gens.LABELS + gens.CJK[:4] + [' ']) for _ in range(rng.randint(1, 5))))
             row = ''.join(pieces)
             out.append(self.make('quoted-row', row + '\n' + '-' * (row_cols(row) + 1)))
+        # the anchor stays inside the first character's cell at every scale (binary fractions, so that every coordinate prints exactly)
+        for _ in range(200 if tier == 'quick' else 4000):
+            w = rng.randint(1, 10); h = rng.randint(1, 4)
+            rows = [''.join(rng.choice(gens.LABELS + gens.CJK[:3] + [' ', ' ', '-', '|']) for _ in range(w)) for _ in range(h)]
+            out.append(self.make('grid-scaled', '\n'.join(rows), rng.choice(['4', '2', '1', '3/4', '1/2', '1/4'])))
         for g, t in texts(rng, tier, 300, 5000):
             t = ''.join(c for c in t if c not in '{}"\r' and not (ord(c) < 32 and c != '\n') and c not in '\x7f\x85' and not (0x80 <= ord(c) < 0xa0) and c not in '￾￿')
             if '# Legend:' in t: continue
@@ -71,7 +76,8 @@ class C04(Prop):
                 if p.tag == 'defs': indefs = True
                 p = p.parent
             if indefs: continue
-            try: col = (F(e.get('x')) - 2) / 8; row = (F(e.get('y')) - 12) / 16
+            sc = F(it.meta.get('scale', '8'))
+            try: col = (F(e.get('x')) * 8 / sc - 2) / 8; row = (F(e.get('y')) * 8 / sc - 12) / 16
             except Exception: out.append('text without position'); continue
             if col.denominator != 1 or row.denominator != 1:
                 out.append('text %r is not anchored at the q point of a cell: (%s,%s)' % (e.text(), e.get('x'), e.get('y'))); continue
